@@ -937,7 +937,8 @@ def inline_names(e, func, depth=0):
 
 
 def law_of(ctx, repo, fname, first_param_feature, want):
-    f = repo.func(SCALE, fname)
+    # (a shared private helper that carries the law is read in place)
+    f = inline_helpers(repo, SCALE, repo.func(SCALE, fname))
     params = [a.arg for a in f.args.args]
     rets = [r for r in walk(f) if isinstance(r, ast.Return)]
     augs = {txt(n.target) for n in walk(f) if isinstance(n, ast.AugAssign)}
@@ -967,7 +968,18 @@ def law_of(ctx, repo, fname, first_param_feature, want):
                                     "bound once")
             return ratfun(d.value, lambda n_: res(n_, depth + 1))
         return None
-    r = ratfun(mul.value, res)
+    consts = {}
+    for n_ in walk(f):
+        if isinstance(n_, ast.Assign) and len(n_.targets) == 1 \
+                and isinstance(n_.targets[0], ast.Name) and isinstance(
+                    n_.value, ast.Constant) and isinstance(
+                    n_.value.value, (int, float)):
+            d_ = single_def(f, n_.targets[0].id)
+            if d_ is n_:
+                consts[n_.targets[0].id] = n_.value
+    factor = _Subst(consts).visit(_fresh(mul.value)) if consts \
+        else mul.value
+    r = ratfun(factor, res)
     if isinstance(mul.op, ast.Div):
         r = r ** -1
     mono = r.monomial()
@@ -1523,6 +1535,41 @@ def unroll_tables(repo, rel, func):
     `sum(<comprehension over a literal table>)` are written out"""
     new = ast.parse(txt(func)).body[0]
     what = func.name
+    # local closures with a single return expression are written out at
+    # their call sites (free variables stay names of the enclosing scope)
+    clos = {}
+    for st in list(new.body):
+        if isinstance(st, ast.FunctionDef):
+            body = [x for x in st.body if not (isinstance(x, ast.Expr)
+                                               and isinstance(
+                                                   x.value, ast.Constant))]
+            a_ = st.args
+            if len(body) == 1 and isinstance(body[0], ast.Return) \
+                    and body[0].value is not None and not (
+                    a_.vararg or a_.kwarg or a_.kwonlyargs or a_.defaults
+                    or st.decorator_list):
+                clos[st.name] = ([x.arg for x in a_.args], body[0].value)
+                new.body.remove(st)
+
+    class C(ast.NodeTransformer):
+        def visit_Call(self, node):
+            self.generic_visit(node)
+            if isinstance(node.func, ast.Name) and node.func.id in clos:
+                pars, expr = clos[node.func.id]
+                bind = {}
+                for p_, a in zip(pars, node.args):
+                    bind[p_] = a
+                for kw in node.keywords:
+                    if kw.arg in pars:
+                        bind[kw.arg] = kw.value
+                if set(bind) != set(pars):
+                    raise AnalysisError(f"{what}: call of the local "
+                                        f"function `{node.func.id}`")
+                return _Subst(bind).visit(_fresh(expr))
+            return node
+    if clos:
+        new = ast.parse(txt(ast.fix_missing_locations(
+            C().visit(new)))).body[0]
 
     class U(ast.NodeTransformer):
         def visit_For(self, node):
@@ -3284,4 +3331,73 @@ TWINS = [
        '    exp2 = 0.0070 * np.exp(neg_volume_scaled / 450)\n'
        '    exp3 = 0.0032 * np.exp(neg_volume_scaled / 6040)\n'
        '    return offs + exp1 + exp2 + exp3\n')]),
+    ('refactoring 4: decay terms through a local closure', PX,
+     [('    offs = 0.0012\n'
+       '    exp1 = 0.020 * np.exp(-area_um * pxscale / 7.1)\n'
+       '    exp2 = 0.010 * np.exp(-area_um * pxscale / 38.6)\n'
+       '    exp3 = 0.005 * np.exp(-area_um * pxscale / 296)\n'
+       '    delta = offs + exp1 + exp2 + exp3\n',
+       '\n'
+       '    def decay(amplitude, constant):\n'
+       '        """Single exponential decay term of the correction"""\n'
+       '        return amplitude * np.exp(-area_um * pxscale / constant)\n'
+       '\n'
+       '    offs = 0.0012\n'
+       '    delta = offs + decay(0.020, 7.1) + decay(0.010, 38.6) + '
+       'decay(0.005, 296)\n'),
+      ('    offs = 0.0013\n'
+       '    exp1 = 0.0172 * np.exp(-volume * pxscalev / 40)\n'
+       '    exp2 = 0.0070 * np.exp(-volume * pxscalev / 450)\n'
+       '    exp3 = 0.0032 * np.exp(-volume * pxscalev / 6040)\n'
+       '    delta = offs + exp1 + exp2 + exp3\n',
+       '\n'
+       '    def decay(amplitude, constant):\n'
+       '        """Single exponential decay term of the correction"""\n'
+       '        return amplitude * np.exp(-volume * pxscalev / constant)\n'
+       '\n'
+       '    offs = 0.0013\n'
+       '    delta = offs + decay(0.0172, 40) + decay(0.0070, 450) + '
+       'decay(0.0032, 6040)\n')]),
+    ('refactoring 4: area and volume laws share a helper with an exponent parameter', SCALE,
+     [('def scale_area_um(area_um, channel_width_in, channel_width_out, '
+       'inplace=False,\n',
+       'def _scale_by_length_ratio(data, channel_width_in, '
+       'channel_width_out,\n'
+       '                           exponent, inplace):\n'
+       '    """Scale `data` (a copy unless `inplace`) with '
+       '(L\'/L)^exponent"""\n'
+       '    data_corr = np.array(data, copy=not inplace)\n'
+       '\n'
+       '    if channel_width_in != channel_width_out:\n'
+       '        data_corr *= (channel_width_out / '
+       'channel_width_in)**exponent\n'
+       '    return data_corr\n'
+       '\n'
+       '\n'
+       'def scale_area_um(area_um, channel_width_in, channel_width_out, '
+       'inplace=False,\n'),
+      ('    copy = not inplace\n'
+       '    if issubclass(area_um.dtype.type, np.integer) and inplace:\n'
+       '        raise ValueError("Cannot correct integer `area_um` '
+       'in-place!")\n'
+       '    area_um_corr = np.array(area_um, copy=copy)\n'
+       '\n'
+       '    if channel_width_in != channel_width_out:\n'
+       '        area_um_corr *= (channel_width_out / channel_width_in)**2\n'
+       '    return area_um_corr\n',
+       '    if issubclass(area_um.dtype.type, np.integer) and inplace:\n'
+       '        raise ValueError("Cannot correct integer `area_um` '
+       'in-place!")\n'
+       '    return _scale_by_length_ratio(area_um, channel_width_in,\n'
+       '                                  channel_width_out, exponent=2,\n'
+       '                                  inplace=inplace)\n'),
+      ('    copy = not inplace\n'
+       '    volume_corr = np.array(volume, copy=copy)\n'
+       '\n'
+       '    if channel_width_in != channel_width_out:\n'
+       '        volume_corr *= (channel_width_out / channel_width_in)**3\n'
+       '    return volume_corr\n',
+       '    return _scale_by_length_ratio(volume, channel_width_in,\n'
+       '                                  channel_width_out, exponent=3,\n'
+       '                                  inplace=inplace)\n')]),
 ]
